@@ -81,3 +81,83 @@ Theorem C10_consumer_monotone_all_schedules : forall cf reqs s d c,
   ole (cgen_of (snd (at_step cf reqs s d k)) c) (cgen_of (snd (at_step cf reqs s d k')) c).
 Proof. exact cons_mono. Qed.
 Print Assumptions C10_consumer_monotone_all_schedules.
+
+(* ---------------------------------------------------------------------------------------------------------------
+   AN ACCOUNTING under ALL schedules of ANY number of requests of EVERY kind (Model/ConcAll.v: one step per top-level
+   transaction; Proofs/C10c.v).  a_run_tally is a_run_sched recording, per request, the increments of provider u's generation
+   made by that request's own transactions (tl).  acct1 u t z b says of one request (thread state t, tally z, bounds b of its
+   kind): answer not fixed yet -> z = 0; answered >= 300 -> z = 0; answered with success -> least b <= z <= greatest b.
+   So: generations move only in the ONE committing transaction of a request that is then answered with success; rejected and
+   unfinished requests move nothing; and u's final generation is the initial one plus the sum of the tally. *)
+From PV Require Import Model.ConcAll Proofs.C10c.
+
+Theorem C10_accounting_all_schedules : forall cf reqs s d u,
+  let '(ts, d', tl) := a_run_tally cf u s (map (ainit cf) reqs) d (map (fun _ => 0) reqs) in
+  a_exec cf reqs s d = (ts, d') /\
+  acctL u ts tl (map (fun r => a_bounds (ainit cf r) u) reqs) /\
+  (forall g, gen_of d u = Some g -> alive cf u s (map (ainit cf) reqs) d -> gen_of d' u = Some (g + sumZ tl)).
+Proof. exact c10c_accounting. Qed.
+Print Assumptions C10_accounting_all_schedules.
+
+(* reading acctL request by request *)
+Theorem C10_accounting_per_request : forall u ts tl bs i t, acctL u ts tl bs -> nth_error ts i = Some t ->
+  exists z b, nth_error tl i = Some z /\ nth_error bs i = Some b /\
+    (a_resp t = None -> z = 0) /\
+    (forall r, a_resp t = Some r -> 300 <= status r -> z = 0) /\
+    (forall r, a_resp t = Some r -> status r < 300 -> in_bounds b z).
+Proof.
+  intros u ts tl bs i t H Hi. destruct (acctL_nth u ts tl bs i t H Hi) as [z [b [H1 [H2 H3]]]]. exists z, b.
+  split; [exact H1|]. split; [exact H2|]. split; [apply (acct1_open u t z b H3)|].
+  split; [intros r; apply (acct1_rejected u t z b r H3)|intros r; apply (acct1_accepted u t z b r H3)].
+Qed.
+Print Assumptions C10_accounting_per_request.
+
+(* the bounds (least, greatest; None = not bounded here) by request kind: exact where the documented meaning does not depend
+   on the state - PUT inventories, POST / PUT / DELETE inventory, DELETE inventories, PUT aggregates from 1.19: exactly one on
+   the provider named, nothing elsewhere; PUT aggregates below 1.19, provider create / update / delete, DELETE /allocations:
+   nothing; PUT / DELETE traits: at most one on the provider named (none when nothing changes); PUT / POST /allocations: at most
+   one per provider (see C10_two_clearing_writes for why not "exactly one per provider named"); POST /reshaper: not bounded *)
+Theorem C10_bounds_by_kind : forall cf u,
+  (forall v u0 g l, a_bounds (ainit cf (InvSet v u0 g l)) u = (b01 u0 u, Some (b01 u0 u))) /\
+  (forall v u0 x, a_bounds (ainit cf (InvPost v u0 x)) u = (b01 u0 u, Some (b01 u0 u))) /\
+  (forall v u0 g x, a_bounds (ainit cf (InvPut v u0 g x)) u = (b01 u0 u, Some (b01 u0 u))) /\
+  (forall u0 rc, a_bounds (ainit cf (InvDelete u0 rc)) u = (b01 u0 u, Some (b01 u0 u))) /\
+  (forall v u0, 5 <= v -> a_bounds (ainit cf (InvDeleteAll v u0)) u = (b01 u0 u, Some (b01 u0 u))) /\
+  (forall v u0 g l, 19 <= v -> a_bounds (ainit cf (AggsSet v u0 g l)) u = (b01 u0 u, Some (b01 u0 u))) /\
+  (forall v u0 g l, 1 <= v < 19 -> a_bounds (ainit cf (AggsSet v u0 g l)) u = (0, Some 0)) /\
+  (forall v u0 g ts, 6 <= v -> a_bounds (ainit cf (TraitsSet v u0 g ts)) u = (0, Some (b01 u0 u))) /\
+  (forall v u0, 6 <= v -> a_bounds (ainit cf (TraitsDelete v u0)) u = (0, Some (b01 u0 u))) /\
+  (forall v c, a_bounds (ainit cf (AllocPut v c)) u = (0, Some 1)) /\
+  (forall v l, 13 <= v -> a_bounds (ainit cf (AllocPost v l)) u = (0, Some 1)) /\
+  (forall v ri al, 30 <= v -> a_bounds (ainit cf (Reshape v ri al)) u = (0, None)) /\
+  (forall c, a_bounds (ainit cf (AllocDelete c)) u = (0, Some 0)) /\
+  (forall v u0 n p, a_bounds (ainit cf (RpCreate v u0 n p)) u = (0, Some 0)) /\
+  (forall v u0 n p, a_bounds (ainit cf (RpUpdate v u0 n p)) u = (0, Some 0)) /\
+  (forall u0, a_bounds (ainit cf (RpDelete u0)) u = (0, Some 0)).
+Proof. exact bounds_table. Qed.
+Print Assumptions C10_bounds_by_kind.
+
+(* the total increment lies between the least and greatest documented increments of the ACCEPTED requests; where they
+   coincide it is exact *)
+Theorem C10_totals : forall u ts tl bs, acctL u ts tl bs ->
+  lo_sum ts bs <= sumZ tl /\ (Forall (fun b => snd b <> None) bs -> sumZ tl <= hi_sum ts bs).
+Proof. exact acct_totals. Qed.
+Print Assumptions C10_totals.
+
+(* the set-up of harness/conc_extra.py: a claim and an inventory PUT on provider 6 both succeed under this schedule (the claim
+   re-reads the generation on its server-side retry): 1 + 1 + 1 *)
+Theorem C10_example_claim_vs_put :
+  let '(ts, d', tl) := a_run_tally cx_cf 6 [0; 0; 0; 1; 1; 0]%nat (map (ainit cx_cf) cx_claim_vs_put) cx_d0 [0; 0] in
+  (map cx_status ts, cx_gen cx_d0 6, cx_gen d' 6, tl) = ([204; 200], 1, 3, [1; 1]).
+Proof. exact c10c_example_claim_vs_put. Qed.
+Print Assumptions C10_example_claim_vs_put.
+
+(* ... and why an allocation write is "at most one per provider": two PUT /allocations/2 {} with the same consumer generation
+   both answer 204 (recorded finding of C06 / C07: the overtaken clearing write finds no rows and compares nothing); provider 2
+   is incremented once *)
+Theorem C10_two_clearing_writes :
+  let '(ts, d', tl) := a_run_tally cx_cf 2 [0; 0; 0; 1; 0; 1; 1]%nat (map (ainit cx_cf) cx_two_clears) cx_d0 [0; 0] in
+  (map cx_status ts, cx_gen cx_d0 2, cx_gen d' 2, tl) = ([204; 204], 3, 4, [1; 0]).
+Proof. exact c10c_example_two_clears. Qed.
+Print Assumptions C10_two_clearing_writes.
+
